@@ -152,6 +152,35 @@ impl<'a> IndexSelector<'a> {
                 .unwrap_or(false)
         })?;
 
+        // The lookup key is encoded from the literal's lexical type. It only equals the stored
+        // key encoding when that type is the column's type (`int_col = 1.0` or `double_col = 1`
+        // would probe with a key no row can have); otherwise leave the filter to a scan.
+        {
+            use crate::records::types::DataType;
+            use crate::sql::ast::Literal;
+            let col_type = table_def
+                .columns()
+                .iter()
+                .find(|c| c.name().eq_ignore_ascii_case(col_name))
+                .map(|c| c.data_type())?;
+            let compatible = match literal_expr {
+                Expr::Literal(
+                    Literal::Integer(_) | Literal::HexNumber(_) | Literal::BinaryNumber(_),
+                ) => matches!(col_type, DataType::Int2 | DataType::Int4 | DataType::Int8),
+                Expr::Literal(Literal::Float(_)) => {
+                    matches!(col_type, DataType::Float4 | DataType::Float8)
+                }
+                Expr::Literal(Literal::String(_)) => {
+                    matches!(col_type, DataType::Text | DataType::Varchar | DataType::Char)
+                }
+                Expr::Literal(Literal::Boolean(_)) => matches!(col_type, DataType::Bool),
+                _ => false,
+            };
+            if !compatible {
+                return None;
+            }
+        }
+
         let key_bytes = encode_fn(literal_expr)?;
 
         let index_name = self.arena.alloc_str(matching_index.name());
